@@ -11,6 +11,8 @@ Tie S : (symbolic-execution translator, harness/gen_kernels.py) the real calcula
         every run and Props/KernelTie.lean proves, by `ring` over every commutative ring, that it IS the model kernel
         (KT_<api>_<type>_<mode>) and that the model's dispatch functions return it (KT_dispatch_...).  46 (type, mode) kernels;
         built / audited separately (see `kernel_tie`): a changed formula breaks exactly the KT_ theorems of that kernel.
+Tie H : (histories) `c11.seq` runs Model/GeomHistory.lean (stored 'volume' / 'area' / 'metric' variables reused as the code does,
+        `_validate_metric` read-only) on the same call sequence as ONE live object; every step compared (stream `sequence`).
 Oracle: metamorphic, on the public API only: relabel ids, shuffle storage, exact rational rotation + translation,
         scaling, reflection; modes agree on affine cells and equal the closed form; bricks: counts, positivity,
         sum = box.
@@ -37,6 +39,15 @@ PARTIAL = [
     'areas: theorems are about the area vectors / radicands (area = sum sqrt(q) / den); sqrt itself, float rounding, the float32 '
     'accumulators and LAPACK det are runtime, covered by the tolerance of the P-tie',
     'generate_random_mesh (scipy Delaunay) is exercised by the oracle only',
+    'call histories on one object (C11_hist_*, Model/GeomHistory.lean): the model transcribes the tree AS IT IS, i.e. a call with '
+    'elements=None returns _validate_metric(stored variable) whatever mode / return_abs_* it asks for (open known finding of C19 '
+    '`options-ignored:<query>`); proved about it: the stored variable is never written by the calls it answers (C11_hist_read_only), '
+    'stays what the first storing call returned (C11_hist_signed_stable), every value returned in any history is a fresh-object value '
+    'of some (mode, options) (C11_hist_values_are_query_values), histories are invisible on meshes without negative elements whose modes '
+    'agree (C11_hist_positive_invisible), signed histories commute with negation = reflection (C11_hist_reflect_signed).  NOT proved '
+    'because false on the tree: "every call returns the fresh-object value of ITS OWN options".  calculate_element_normals (lru_cache, '
+    'no stored reuse), calls on a type block and meshes with polyhedron faces are outside the history model (oracle + kernel model only); '
+    'the aliasing of returned arrays with the stored buffer is not modelled (checked by the snapshot oracle)',
     'tie S (KT_ theorems: traced polynomial of the working tree = model kernel) covers every (type, mode) of volumes / areas / normals '
     'except the two kernels with the float Gauss abscissa (hex "gaussian" volume, quad "gaussian" area: tie P only); polygon kernels at '
     '3 and 5 nodes and polyhedron kernels on the tet and the pyramid face list (other arities: tie P only); float rounding, float32 '
@@ -66,6 +77,17 @@ RULE = ('(P) per kernel x mode x type N disjoint elements (half: independent ran
         'tie D + {rigid, translate (in the mesh\'s own unit), scale, reflect, rescale (power of two across orders of magnitude), '
         'storage} + modes-affine at that absolute scale, tolerances relative to the scaled mesh; every normal inside the clamp-free '
         'range must be a unit vector (all streams); '
+        'stream `sequence` (call histories on ONE live object): meshes of every kind (tet, hex, prism, pyr, hex+prism+pyr, tet2, polyhedron, '
+        'polyhedron + typed cells, hexprism, tri, quad, tri+quad, polygon) x orientation {positive, reflected by an exact improper rotation, partly '
+        'inverted (connectivity of a random subset flipped)} x 2-5 calls of calculate_element_volumes / _areas / _metrics / _normals with random '
+        '(mode, raise_negative_*, return_abs_*, elements in {None, fem_data.elements, one type block}, update); half of the sequences are '
+        'sandwiches [q, q\', q] (q\' = q with one option or the api changed) with random calls inserted.  Each step is compared with the same '
+        'call on a freshly built equal object and with the history model (tie H); a step that differs from the fresh value but equals exactly '
+        '_validate_metric(options, SNAPSHOT of what the storing call returned) is the open known finding of C19 `options-ignored` and is counted '
+        '(`sequence:step:known:options-ignored:<api>`), not failed; anything else is a failure (`sequence:reflect-sign:*` when a signed value of a '
+        'negatively oriented element came back with the opposite sign, else `sequence:value:*`).  Arrays returned by earlier calls are '
+        'snapshotted and must stay bit-identical after every later call (`sequence:returned-array-changed:*`), as must coordinates, '
+        'connectivity, ids and face data (`sequence:input-changed:*`); '
         'a case is non-trivial when the exact value is not ~0 (P) / always (metamorphic: the transformed mesh differs); '
         'distinct = distinct (stream, mesh / element, api, mode, transform)')
 ASSUMPTIONS = [
@@ -81,6 +103,12 @@ ASSUMPTIONS = [
     'length 0.4 at 2 x area = 4e-11, 0.04 at 2.5e-12).  "Within the float range the method\'s precision supports" is therefore '
     'read as |un-normalised normal| >= 1e-9 (edge length >~ 3e-5): unit length, rigid / scale invariance and the reflection sign '
     'of normals are asserted only for such elements (others are counted under `elements-below-the-clamp-range`)',
+    'stream `sequence`: classified outside the statement and only counted - calculate_element_metrics on a pyr mesh / a mixed mesh with a '
+    'pyr block raises NotImplementedError (declared unsupported: no value is computed); not generated - calculate_element_normals('
+    'elements=fem_data.elements) (lru_cache needs a hashable argument; type blocks are passed instead), calculate_element_metrics('
+    'elements=..., update=True) once a metric is stored (update_data without allow_overwrite raises: DESIGN 5 F5), update=True on a '
+    'type block (would store a partial variable under the mesh-wide name).  The stored-variable reuse `options-ignored` is judged by C19, '
+    'not here (see RULE); the live step must then equal the stored snapshot exactly (bitwise, or the same exception type)',
     'polyhedron face data hold node storage indices (as produced by to_polyhedron); reordering node storage re-indexes them',
     'calculate_element_areas / _normals on a mixed mesh ignore `mode` (sub-calls use the default "centroid"): transcribed in the '
     'model (shellModeInMesh), not a violation of the property',
@@ -1015,6 +1043,19 @@ THEOREMS += [
     'C11_gaussP_inexact',
     'C11_hexGauss_literal_inexact',
 ]
+# Props/C11History.lean (model: Model/GeomHistory.lean, driver command c11.seq): call histories on ONE object
+THEOREMS += [
+    'C11_hist_ratSgn_lawful',
+    'C11_hist_areaSgn_lawful',
+    'C11_hist_read_only',
+    'C11_hist_signed_stable',
+    'C11_hist_signed_after_abs',
+    'C11_hist_values_are_query_values',
+    'C11_hist_positive_invisible',
+    'C11_hist_reflect_signed',
+    'C11_hist_tree_example',
+    'C11_hist_inplace_counterexample',
+]
 
 
 # ------------------------------------------------------------------------------------------ tie S (symbolic kernel tie)
@@ -1299,6 +1340,8 @@ def run(ctx):
                 ctx.fail(sig, what, {'check': 'metamorphic', 'mesh': G.to_json(m), 'transform': tr, 'api': api, 'mode': 'linear'}, obs)
     # ---- the same oracle at other ABSOLUTE scales (drawn last: the cases above are unchanged for a given seed)
     abs_scale_stream(ctx)
+    # ---- call histories on one live object (drawn last as well)
+    sequence_stream(ctx)
 
 
 def abs_scale_stream(ctx):
@@ -1355,8 +1398,512 @@ def abs_scale_stream(ctx):
                              {k_: v for k_, v in case.items() if k_ != 'mesh'} | {'mesh': case['mesh']}, bad, 'Cfg.fixed')
 
 
+# ------------------------------------------------------------------------------------------ stream `sequence`: call histories on ONE live object
+# Every evaluation above is made on a freshly built object.  Here 2-5 calls of calculate_element_volumes / _areas / _metrics /
+# _normals with varying (mode, raise_negative_*, return_abs_*, elements, update) are made on ONE object holding a positively
+# oriented / reflected / partly inverted mesh.  Each result is compared with (a) the same call on a freshly built equal object
+# (the property: the value depends on shape and orientation only), (b) the exact model of the history (`c11.seq`,
+# Model/GeomHistory.lean), and arrays returned by earlier calls, coordinates, connectivity and ids are snapshotted and must be
+# bit-identical after every later call.  Interplay with the OPEN known finding of C19 `options-ignored:<query>` (DESIGN 5a): on the
+# unchanged tree a call answered from the stored variable returns validate(options, stored) whatever mode / return_abs_* it asks
+# for.  A step that differs from the fresh-object value but equals EXACTLY that value (computed here from the SNAPSHOT of what the
+# storing call returned, never from the live object) is counted under `sequence:step:known:options-ignored:<api>` and not failed;
+# a step that equals neither is a violation (seeded C11-5: the stored signed volumes of a mirrored mesh overwritten in place).
+
+SEQ_KINDS = ['tet', 'hex', 'shell:tri', 'mixed', 'prism', 'shell:quad', 'pyr', 'tet2', 'shell:mixed', 'polyhedron', 'batch:hexprism',
+             'shell:polygon', 'hex', 'tet']
+ORIENTATIONS = ['reflected', 'partly-inverted', 'positive', 'reflected']
+SIGNED_APIS = ('volume', 'area', 'metric')
+
+
+def flip_element(t, c):
+    """the same cell with the opposite orientation (a permutation of its connectivity)"""
+    c = list(c)
+    if t == 'tet':
+        return [c[1], c[0]] + c[2:]
+    if t == 'tet2':
+        sig = [1, 0, 2, 3]
+        ei = {frozenset(e): k for k, e in enumerate(G.TET2_EDGES)}
+        return [c[sig[k]] for k in range(4)] + [c[4 + ei[frozenset((sig[i], sig[j]))]] for i, j in G.TET2_EDGES]
+    if t == 'hex':
+        return c[4:8] + c[0:4]
+    if t == 'prism':
+        return c[3:6] + c[0:3]
+    if t == 'pyr':
+        return [c[0], c[3], c[2], c[1], c[4]]
+    if t == 'hexprism':
+        return c[6:12] + c[0:6]
+    if t in ('tri', 'quad', 'polygon'):
+        return [c[0]] + c[:0:-1]
+    return c
+
+
+def oriented(rng, m, cls):
+    """the mesh in one orientation class: positive (as generated) / reflected (exact rational improper rotation, connectivity
+    untouched: every element negative) / partly-inverted (a random non-empty subset of the cells has its connectivity flipped)"""
+    if cls == 'positive':
+        out = dict(m)
+    elif cls == 'reflected':
+        out, _ = apply_transform(m, make_transform(rng, m, 'reflect'))
+    else:
+        eids = [e for b in m['blocks'].values() for e, _ in b]
+        pick = set(rng.sample(eids, rng.randint(1, max(1, len(eids) - 1))))
+        out = dict(m)
+        out['blocks'] = {t: [(e, flip_element(t, c) if e in pick else list(c)) for e, c in b] for t, b in m['blocks'].items()}
+        if 'faces' in m:
+            out['faces'] = {e: [list(reversed(f)) if e in pick else list(f) for f in fs] for e, fs in m['faces'].items()}
+        out['flipped'] = sorted(pick)
+    out['orientation'] = cls
+    return out
+
+
+def gen_calls(rng, m):
+    """2-5 calls; half of the sequences are sandwiches [q, q', q] (q' = q with ONE option / the api changed) with random calls inserted"""
+    shell = is_shell(m)
+    mixed = len(m['blocks']) > 1
+    apis = ['area', 'metric', 'normal', 'area'] if shell else ['volume', 'metric', 'volume']
+
+    def one(api=None, **fix):
+        api = api or rng.choice(apis)
+        c = {'api': api, 'mode': rng.choice(MODES), 'raise': rng.random() < .2, 'abs': rng.random() < .4,
+             'elements': rng.choices(['none', 'self', 'block'], [7, 2, 1 if mixed else 0])[0], 'update': rng.random() < .8}
+        c.update(fix)
+        if c['api'] == 'normal' and c['elements'] == 'self':
+            # calculate_element_normals is lru_cached: its `elements` argument has to be hashable, which the whole (dict-like)
+            # FEMElementalAttribute is not; a type block (FEMAttribute) is what femio itself passes
+            c['elements'] = 'block'
+        if c['elements'] == 'block':
+            c['elements'] = 'block:' + rng.choice(list(m['blocks']))
+        return c
+    if rng.random() < .5:
+        calls = [one() for _ in range(rng.randint(2, 5))]
+    else:
+        q = one(rng.choice([a for a in apis if a != 'normal']), elements='none', update=True, **{'raise': False, 'abs': False})
+        q2 = dict(q)
+        ch = rng.choice(['abs', 'abs', 'mode', 'raise', 'elements', 'update', 'api', 'abs+mode'])
+        if 'abs' in ch:
+            q2['abs'] = True
+        if 'mode' in ch:
+            q2['mode'] = rng.choice([x for x in MODES if x != q['mode']])
+        if ch == 'raise':
+            q2['raise'] = True
+        if ch == 'elements':
+            q2.update(elements='self', abs=rng.random() < .5)
+        if ch == 'update':
+            q2.update(update=False, abs=rng.random() < .5)
+        if ch == 'api':
+            q2.update(api=rng.choice([a for a in apis if a not in ('normal', q['api'])]), abs=rng.random() < .5)
+        calls = [q, q2, dict(q)]
+        for _ in range(rng.randint(0, 2)):
+            calls.insert(rng.randint(0, len(calls)), one())
+    seen_metric = False
+    for c in calls:
+        if c['elements'].startswith('block:'):
+            c['update'] = False                       # a partial variable stored under the whole mesh's name: not a use femio supports
+        if c['api'] == 'metric':
+            # elements=..., update=True with 'metric' already stored: update_data(allow_overwrite=False) raises (DESIGN 5, F5)
+            if c['elements'] == 'self' and seen_metric:
+                c['update'] = False
+            seen_metric = True
+        if c['api'] == 'normal':
+            c['raise'] = c['abs'] = False
+    return calls
+
+
+def call_kwargs(fd, c):
+    api, kw = c['api'], {}
+    if api != 'metric':
+        kw['mode'] = c['mode']
+    if api != 'normal':
+        nm = {'volume': 'volume', 'area': 'area', 'metric': 'metric'}[api]
+        kw['raise_negative_' + nm] = c['raise']
+        kw['return_abs_' + nm] = c['abs']
+    el = c['elements']
+    if el == 'self':
+        kw['elements'] = fd.elements
+        if api == 'volume' and fd.elements.element_type == 'polyhedron':      # explicit elements: the caller supplies the faces too
+            kw['faces'] = fd.elemental_data['face']['polyhedron'].data
+    elif el.startswith('block:'):
+        kw['elements'] = fd.elements[el[6:]]
+        if api == 'normal':                    # the other three infer the type from `elements.name`
+            kw['element_type'] = el[6:]
+        if api == 'volume' and el[6:] == 'polyhedron':
+            kw['faces'] = fd.elemental_data['face']['polyhedron'].data
+    kw['update'] = c['update']
+    return kw
+
+
+def do_call(fd, c):
+    """-> ('vals', returned array object, ids) | ('raises', exception type name, message)"""
+    f = {'volume': fd.calculate_element_volumes, 'area': fd.calculate_element_areas, 'metric': fd.calculate_element_metrics,
+         'normal': fd.calculate_element_normals}[c['api']]
+    try:
+        r = G.quiet(f, **call_kwargs(fd, c))
+    except C.Timeout:
+        raise
+    except Exception as e:
+        return ('raises', type(e).__name__, str(e)[:200])
+    el = c['elements']
+    ids = [int(i) for i in (fd.elements[el[6:]].ids if el.startswith('block:') else fd.elements.ids)]
+    return ('vals', r, ids)
+
+
+def _snap_inputs(fd):
+    out = {'nodes.ids': np.array(fd.nodes.ids).copy(), 'nodes.data': np.array(fd.nodes.data).copy(),
+           'elements.ids': np.array(fd.elements.ids).copy()}
+    for t, a in fd.elements.items():
+        out[f'elements[{t}].ids'] = np.array(a.ids).copy()
+        out[f'elements[{t}].data'] = [np.array(r).copy() for r in a.data] if a.data.dtype == object else np.array(a.data).copy()
+    if 'face' in fd.elemental_data:
+        out['face'] = [list(r) for r in fd.elemental_data['face']['polyhedron'].data]
+    return out
+
+
+def _bits_equal(a, b):
+    if isinstance(a, list) or isinstance(b, list):
+        return len(a) == len(b) and all(_bits_equal(x, y) for x, y in zip(a, b))
+    a, b = np.asarray(a), np.asarray(b)
+    return a.shape == b.shape and a.dtype == b.dtype and a.tobytes() == b.tobytes()
+
+
+def _as_float(r):
+    return np.array(r, dtype=float)
+
+
+def _close(a, b, tol):
+    """elementwise |a - b| <= tol (tol scalar or array), nan never close"""
+    return a.shape == b.shape and bool(np.all(np.abs(a - b) <= tol))
+
+
+def _validate_np(c, stored):
+    """what `_validate_metric` of the unchanged tree returns for the stored variable `stored` (a snapshot)"""
+    if c['raise'] and bool(np.any(stored < 0.)):
+        return ('raises', 'ValueError', 'Negative metric found')
+    return ('vals', np.abs(stored) if c['abs'] else stored, None)
+
+
+def seq_model(ctx, m, calls):
+    """the exact history model (Model/GeomHistory.lean, the tree as it is: stored variables are reused): per call
+    ('vals', {eid: value}) | ('negative',) | ('unsupported',) | ('upderr',) | None (normal calls / model not applicable)"""
+    if ctx is None or getattr(ctx, 'driver', None) is None or 'faces' in m:
+        return None
+    shell = is_shell(m)
+    enc = []
+    for c in calls:
+        if c['api'] == 'normal' or c['elements'].startswith('block:'):
+            continue
+        enc.append(' '.join(['m' if c['api'] == 'metric' else 'b', c['mode'], str(int(c['raise'])), str(int(c['abs'])),
+                             str(int(c['elements'] == 'self')), str(int(c['update']))]))
+    if not enc:
+        return [None] * len(calls)
+    rep = ctx.driver.ask(f'c11.seq 1 0 {int(shell)} {G.enc_mesh(m)} {len(enc)} ' + ' '.join(enc))
+    t = C.Toks(rep)
+    if t.tok() != 'ok':
+        raise RuntimeError('driver: ' + rep[:200])
+    outs = []
+    for _ in range(t.nat()):
+        k = t.tok()
+        if k == 'v':
+            d = {}
+            for _ in range(t.nat()):
+                e = t.nat()
+                if shell:
+                    den = t.rat()
+                    d[e] = sum(sqrtF(q) for q in t.lst(t.rat)) / float(den)
+                else:
+                    d[e] = float(t.rat())
+            outs.append(('vals', d))
+        else:
+            outs.append(({'neg': 'negative', 'unsup': 'unsupported', 'upderr': 'upderr', 'nokernel': 'nokernel'}[k],))
+    it = iter(outs)
+    return [None if (c['api'] == 'normal' or c['elements'].startswith('block:')) else next(it) for c in calls]
+
+
+def faces_model_values(ctx, m, mode):
+    """exact signed volumes of a solid mesh that has polyhedron cells (explicit faces): polyhedra through c11.polyvol, the
+    other cells through c11.vol"""
+    pos = dict(m['nodes'])
+    out = {}
+    for t, b in m['blocks'].items():
+        if t == 'polyhedron':
+            lines = [f'c11.polyvol {mode} ' + C.enc_list(m['faces'][e], lambda f: enc_pts([pos[n] for n in f])) for e, _ in b]
+        else:
+            lines = [f'c11.vol {t} {mode} {enc_pts([pos[n] for n in c])}' for _, c in b]
+        for (e, _), rep in zip(b, ctx.driver.ask_many(lines)):
+            tk = C.Toks(rep)
+            if tk.tok() != 'ok' or (t != 'polyhedron' and tk.nat() != 1):
+                return None
+            out[e] = float(tk.rat())
+    return out
+
+
+def partly_polyhedron(rng, m):
+    """the same solid cells, a random non-empty proper subset of them given as polyhedra with explicit faces (a MIXED mesh
+    with a polyhedron block: the `mix` branch of calculate_element_volumes fetches the faces itself)"""
+    cells = [(t, e, c) for t, b in m['blocks'].items() for e, c in b]
+    if len(cells) < 2:
+        return to_polyhedron_mesh(m)
+    pick = set(rng.sample([e for _, e, _ in cells], rng.randint(1, len(cells) - 1)))
+    blocks, faces = {}, {}
+    for t, e, c in cells:
+        if e in pick:
+            blocks.setdefault('polyhedron', []).append((e, list(c)))
+            faces[e] = [[c[i] for i in f] for f in G.FACES[t]]
+        else:
+            blocks.setdefault(t, []).append((e, list(c)))
+    out = dict(m)
+    out.update(blocks={t: blocks[t] for t in G.ELEMENT_TYPES if t in blocks}, faces=faces, kind='polyhedron+' + m['kind'])
+    return out
+
+
+def check_sequence(m, calls, ctx=None, labels=None):
+    """-> list of (signature, what, observed).  `labels`: list that receives one classification label per step"""
+    labels = labels if labels is not None else []
+    out = []
+    dim = 2 if is_shell(m) else 3
+    sc = scale_of(m)
+    tys = mesh_types(m)
+    mixed = len(tys) > 1
+    type_of = {e: t for t, b in m['blocks'].items() for e, _ in b}
+    cls = m.get('orientation', '?')
+    kinds = 'mixed' if mixed else tys[0]
+    fd = to_fem(m)
+    try:
+        type(fd).calculate_element_normals.cache_clear()
+    except Exception:
+        pass
+    before = _snap_inputs(fd)
+    returned = []          # (step, api, array object as returned, snapshot at return time)
+    live = []
+    stored = {'volume': None, 'area': None, 'metric': None}      # SNAPSHOTS of what the storing call returned
+    known = []             # per step: the outcome the stored-variable semantics of the unchanged tree gives, or None
+    base = 'area' if dim == 2 else 'volume'
+
+    def describe_call(i):
+        c = calls[i]
+        return f'#{i + 1} {c["api"]}(' + ', '.join(f'{k}={c[k]}' for k in ('mode', 'raise', 'abs', 'elements', 'update')
+                                                  if not (k == 'mode' and c['api'] == 'metric')
+                                                  and not (k in ('raise', 'abs') and c['api'] == 'normal')) + ')'
+    for i, c in enumerate(calls):
+        api = c['api']
+        k_out = None
+        if api in SIGNED_APIS and c['elements'] == 'none' and stored[api] is not None:
+            k_out = _validate_np(c, stored[api])
+        known.append(k_out)
+        r = do_call(fd, c)
+        if r[0] == 'vals':
+            snap = np.array(r[1]).copy()
+            returned.append((i, api, r[1], snap))
+            live.append(('vals', snap, r[2]))          # the value AS RETURNED (the array object may be changed later)
+        else:
+            live.append(r)
+        if r[0] == 'vals':
+            if api in SIGNED_APIS and k_out is None and c['update'] and c['elements'] in ('none', 'self'):
+                stored[api] = _as_float(snap)
+                if api == 'metric' and not mixed:
+                    stored[base] = _as_float(snap)
+        # a later query must not change what an earlier query returned, nor the mesh
+        for j, api_j, arr, snap_j in returned:
+            if j < i and not _bits_equal(arr, snap_j):
+                neg = bool(np.any(_as_float(snap_j) < 0)) and api_j in SIGNED_APIS
+                out.append((f'sequence:returned-array-changed:{api_j}' + (':sign' if neg and np.array_equal(np.abs(snap_j), np.abs(arr)) else ''),
+                            f'the array returned by call {describe_call(j)} was changed in place by the later call {describe_call(i)} '
+                            f'on the same object ({cls} {kinds} mesh)' + (': the signed values of negatively oriented elements lost '
+                                                                          'their sign' if neg else ''),
+                            {'returned_then': snap_j.ravel()[:6].tolist(), 'now': np.array(arr).ravel()[:6].tolist(), 'changed_by_call': i + 1}))
+                returned = [x for x in returned if x[0] != j]
+                break
+    after = _snap_inputs(fd)
+    for key in before:
+        if key not in after or not _bits_equal(before[key], after[key]):
+            out.append((f'sequence:input-changed:{key.split("[")[0] + ("." + key.split(".")[-1] if "[" in key else "")}',
+                        f'{key} of the object changed during the call sequence ({cls} {kinds} mesh)', {'attribute': key}))
+            break
+    model = seq_model(ctx, m, calls)
+    # ---- the same calls, each on a freshly built equal object
+    for i, c in enumerate(calls):
+        api = c['api']
+        f = do_call(to_fem(m), c)
+        r = live[i]
+        lab = None
+        if f[0] == 'raises' and f[1] == 'NotImplementedError':
+            labels.append(f'unsupported-by-femio:{api}:' + ('+'.join(tys)))         # calculate_element_metrics has no pyr branch
+            continue
+        if f[0] == 'raises' and not (f[1] == 'ValueError' and 'Negative metric' in f[2]):
+            out.append((f'raises:{api}:{kinds}', f'{describe_call(i)} raises {f[1]} on a freshly built {kinds} mesh',
+                        {'error': f[2], 'call': c}))
+            labels.append(f'raises:{api}')
+            continue
+        if api == 'normal':
+            emode = lambda e: (c['mode'] if not mixed else 'centroid')   # noqa: E731
+            tolv = lambda ids: np.array([[2e-5 if (type_of[e], emode(e)) in F32_NORMAL else 1e-7] for e in ids])   # noqa: E731
+        else:
+            emode = lambda e: (c['mode'] if (not mixed or api == 'volume') and api != 'metric' else 'centroid')   # noqa: E731
+            tolv = lambda ids: np.array([[4 * tol_for(type_of[e], emode(e)) * sc ** dim] for e in ids])   # noqa: E731
+
+        def same(a, b, tol):
+            if a[0] != b[0]:
+                return False
+            if a[0] == 'raises':
+                return a[1] == b[1]
+            x, y = _as_float(a[1]), _as_float(b[1])
+            if x.shape != y.shape:
+                return False
+            return _close(x, y, tol if tol is not None else 0.0)
+        ids = r[2] if r[0] == 'vals' else (f[2] if f[0] == 'vals' else [])
+        if r[0] == 'vals' and f[0] == 'vals' and r[2] != f[2]:
+            lab = None
+        elif same(r, f, 1e-13 * sc ** dim if api != 'normal' else 1e-12):
+            lab = 'equals-fresh'
+        elif known[i] is not None and same(r, known[i], None):
+            lab = f'known:options-ignored:{api}'
+        elif r[0] == 'vals' and f[0] == 'vals' and same(r, f, tolv(ids)):
+            lab = 'equals-fresh-within-tolerance'
+        if lab is None:
+            lab = 'VIOLATION'
+            signed_flip = False
+            if r[0] == 'vals' and f[0] == 'vals' and api in ('volume', 'metric') and dim == 3 and not c['abs'] and r[2] == f[2]:
+                x, y = _as_float(r[1]).ravel(), _as_float(f[1]).ravel()
+                t_ = tolv(ids).ravel()
+                signed_flip = bool(np.any((np.abs(y) > t_) & (np.abs(x + y) <= t_)))
+            if signed_flip:
+                sig = f'sequence:reflect-sign:{api}:{kinds}'
+                what = (f'signed {api} of negatively oriented elements of a {cls} {kinds} mesh came back with the opposite sign from call '
+                        f'{describe_call(i)} after the calls ' + '; '.join(describe_call(j) for j in range(i)) + ' on the same object '
+                        '(neither the value of a fresh equal object nor the stored variable as an earlier call returned it)')
+            else:
+                sig = f'sequence:value:{api}:{kinds}'
+                what = (f'{describe_call(i)} on a {cls} {kinds} mesh after ' + ('; '.join(describe_call(j) for j in range(i)) or 'no call')
+                        + ' returns neither the value of a fresh equal object nor the stored variable as an earlier call returned it')
+
+            def show(o):
+                return {'raises': o[1]} if o[0] == 'raises' else {'values': _as_float(o[1]).ravel()[:6].tolist()}
+            out.append((sig, what, {'step': i + 1, 'live': show(r), 'fresh': show(f),
+                                    'stored_semantics': show(known[i]) if known[i] is not None else None}))
+        labels.append(lab)
+        # ---- fresh-object value and live value against the exact model
+        if ctx is None or getattr(ctx, 'driver', None) is None or c['elements'].startswith('block:'):
+            continue
+        if 'faces' in m:
+            if f[0] == 'vals' and api in ('volume', 'metric'):
+                md = c['mode'] if api == 'volume' else 'centroid'
+                ex = faces_model_values(ctx, m, md)
+                if ex is not None:
+                    fv = _as_float(f[1]).ravel()
+                    bad = [(e, float(fv[k]), ex[e]) for k, e in enumerate(f[2])
+                           if not abs(fv[k] - (abs(ex[e]) if c['abs'] else ex[e])) <= tol_for(type_of[e], md) * sc ** 3]
+                    if bad:
+                        ctx.disagree('sequence: volumes of a mesh with polyhedron cells differ from the model',
+                                     {'mesh': G.to_json(m) | {'faces': m['faces']}, 'call': c}, bad[:3], 'c11.polyvol / c11.vol')
+            continue
+        if api == 'normal':
+            if f[0] == 'vals':
+                mode = c['mode']
+                ex = parse_mesh_reply(ctx.driver.ask(f'c11.meshnormal 1 {mode} {G.enc_mesh(m)}'), 'normal')
+                raw = raw_normal_len(m)
+                fv = _as_float(f[1])
+                bad = [(e, fv[k].tolist(), ex.get(e)) for k, e in enumerate(f[2])
+                       if raw[e] >= 1e-3 and (ex.get(e) is None or max(abs(a - b) for a, b in zip(fv[k], ex[e])) > 1e-6)]
+                if bad:
+                    ctx.disagree('sequence: normals differ from the model', {'mesh': G.to_json(m), 'call': c}, bad[:3], 'c11.meshnormal')
+            continue
+        mo = model[i] if model else None
+        if mo is None:
+            continue
+        tolm = lambda ids_: np.array([max(tol_for(type_of[e], md) for md in MODES) * sc ** dim for e in ids_])   # noqa: E731
+        if mo[0] == 'vals':
+            near0 = any(abs(v) <= 4 * TOL32 * sc ** dim for v in mo[1].values())
+        else:
+            near0 = False
+        agree = None
+        if mo[0] == 'vals' and r[0] == 'vals':
+            x = _as_float(r[1]).ravel()
+            y = np.array([mo[1].get(e, float('nan')) for e in r[2]])
+            agree = _close(x, y, tolm(r[2]))
+        elif mo[0] == 'negative':
+            agree = r[0] == 'raises' and r[1] == 'ValueError'
+        elif mo[0] == 'unsupported':
+            agree = r[0] == 'raises' and r[1] in ('NotImplementedError', 'ValueError')
+        elif mo[0] == 'upderr':
+            agree = r[0] == 'raises'
+        elif mo[0] == 'nokernel':
+            agree = True
+        else:
+            agree = False
+        if not agree and not near0:
+            ctx.disagree('sequence: result of a call history differs from the history model (Model/GeomHistory.lean)',
+                         {'mesh': G.to_json(m), 'orientation': cls, 'calls': calls, 'step': i + 1},
+                         {'raises': r[1]} if r[0] == 'raises' else _as_float(r[1]).ravel()[:6].tolist(),
+                         mo[0] if mo[0] != 'vals' else [mo[1].get(e) for e in (r[2] if r[0] == 'vals' else list(mo[1]))][:6])
+    return out
+
+
+def _case_mesh(case):
+    m = G.from_json(case['mesh'])
+    m['blocks'] = {t: m['blocks'][t] for t in G.ELEMENT_TYPES if t in m['blocks']}
+    if 'faces' in case['mesh']:
+        m['faces'] = {int(k): v for k, v in case['mesh']['faces'].items()}
+    m['orientation'] = case.get('orientation', '?')
+    return m
+
+
+def sequence_stream(ctx):
+    rng = ctx.rng
+    for name, obj in C.corpus_cases(PROP):          # corpus first (directed histories; failing inputs of repaired findings)
+        case = obj.get('input', {})
+        if case.get('check') != 'sequence':
+            continue
+        m = _case_mesh(case)
+        labels = []
+        ctx.case(('sequence', 'corpus', name))
+        ctx.count('sequence:corpus')
+        for sig, what, obs in check_sequence(m, case['calls'], ctx, labels):
+            ctx.fail(sig, what, case, obs)
+        for lab in labels:
+            ctx.count('sequence:step:' + lab)
+    n_seq = ctx.n(150, 900) if ctx.driver is not None else ctx.n(300, 1800)
+    for k in range(n_seq):
+        kind = SEQ_KINDS[k % len(SEQ_KINDS)]
+        if kind.startswith('shell:'):
+            base = gen_shell(rng, kind[6:], jit=True if kind == 'shell:mixed' and k % 2 else None)
+        elif kind.startswith('batch:'):
+            base, _ = batch_mesh(rng, kind[6:], rng.randint(1, 4), ['affine', 'shaped'])
+        elif kind == 'polyhedron':
+            base = G.gen_geometric(rng, kind=rng.choice(['tet', 'hex', 'prism', 'pyr', 'mixed']), max_cells=2)
+            base = partly_polyhedron(rng, base) if (k // len(SEQ_KINDS)) % 2 else to_polyhedron_mesh(base)
+            kind = 'polyhedron+solid' if len(base['blocks']) > 1 else 'polyhedron'
+        else:
+            base = solid_mesh(ctx, kind)
+        cls = ORIENTATIONS[(k // len(SEQ_KINDS) + k) % len(ORIENTATIONS)]
+        m = oriented(rng, base, cls)
+        calls = gen_calls(rng, m)
+        case = {'check': 'sequence', 'mesh': G.to_json(m) | ({'faces': m['faces']} if 'faces' in m else {}), 'orientation': cls,
+                'calls': calls}
+        ctx.case(('sequence', k, kind, cls), sample={'check': 'sequence', 'mesh': G.describe(m), 'orientation': cls, 'calls': calls}
+                 if ctx.dist.get('sequence:sequences', 0) < 1 else None)
+        ctx.count('sequence:sequences')
+        ctx.count('sequence:mesh:' + kind)
+        ctx.count('sequence:orientation:' + cls)
+        ctx.count(f'sequence:length:{len(calls)}')
+        for c in calls:
+            ctx.count(f'sequence:call:{c["api"]}:' + ('abs' if c['abs'] else 'signed') + (':raise' if c['raise'] else '')
+                      + ('' if c['elements'] == 'none' else ':elements=' + c['elements'].split(':')[0]) + ('' if c['update'] else ':update=False')
+                      if c['api'] != 'normal' else 'sequence:call:normal')
+        labels = []
+        for sig, what, obs in check_sequence(m, calls, ctx, labels):
+            ctx.fail(sig, what, case, obs)
+        for lab in labels:
+            ctx.count('sequence:step:' + lab)
+
+
 def replay(ctx, obj):
     case = obj['input']
+    if case.get('check') == 'sequence':
+        m = _case_mesh(case)
+        labels = []
+        res = check_sequence(m, case['calls'], ctx, labels)
+        return {'case': {k: v for k, v in case.items() if k != 'mesh'}, 'step_classification': labels,
+                'failures': [{'signature': s, 'what': w, 'observed': o} for s, w, o in res], 'fails': bool(res)}
     if case.get('check') == 'brick':
         res = check_brick(case['type'], case['n'], [F(x) for x in case['lengths']])
     elif case.get('check') == 'modes-affine':
